@@ -189,6 +189,9 @@ def run(check, an: Analysis):
     from . import c01
     c01.check_exact_arithmetic(check, an, 'A', ('usim._basics.pipe', 'usim._core.loop',
                                                 'usim._primitives.notification'))
+    # the kernel rules every suspending operation rests on (shared; see _scope)
+    from . import _scope as _kernel
+    _kernel.check_kernel_core(check, an)
     check.stats.update(an.stats())
 
 
